@@ -12,5 +12,5 @@ coq_makefile -f _CoqProject -o Makefile >/dev/null 2>&1
 timeout 3000 make -j16 2>&1 | grep -v "^Closed under\|^COQ\|conda" || true
 cd ..
 sh ocaml/build.sh
-test -x ocaml/modelrun
+ls ocaml/modelrun_* >/dev/null
 echo "setup done"
